@@ -168,10 +168,9 @@ pub proof fn lemma_first_err_step(q: Seq<Job>, i: int, n: int)
 
 // ---- offset rebasing closures (R10): `section.offset = current_offset; current_offset += section.size` ----
 //@extract closure bigtools/src/bbi/bbiwrite.rs write_mid sections_iter
-//@header fn rebase_write_mid(current_offset: &mut u64, section: Section) -> Section
+//@header fn rebase_write_mid(current_offset: &mut u64, section: Section, pre_data: u64) -> Section
 //@rule R5
-//@sub /\{\s*\/\/ TODO: this assumes that all the data is contiguous/ => { let mut section = section; // TODO: this assumes that all the data is contiguous min=1
-//@sub /\bcurrent_offset\b(?!:)/ => (*current_offset)
+//@sub /\bcurrent_offset\b(?!:)/ => (*current_offset) min=0
 //@ret r
 //@sig
     requires
@@ -184,6 +183,68 @@ pub proof fn lemma_first_err_step(q: Seq<Job>, i: int, n: int)
         *final(current_offset) == *old(current_offset) + section.size,
         [[L: rebase/rest_unchanged]]
         r.chrom == section.chrom && r.start == section.start && r.end == section.end && r.size == section.size,
+//@open
+    let mut section = section;
+//@end
+
+//@extract closure bigtools/src/bbi/bbiwrite.rs write_zooms sections_iter
+//@header fn rebase_write_zooms(current_offset: &mut u64, section: Section, zoom_data_offset: u64) -> Section
+//@rule R5
+//@sub /\bcurrent_offset\b(?!:)/ => (*current_offset) min=0
+//@ret r
+//@sig
+    requires
+        [[L: rebase_write_zooms/pre_no_overflow]]
+        *old(current_offset) + section.size <= u64::MAX,
+    ensures
+        [[L: rebase_write_zooms/offset_is_running_position]]
+        r.offset == *old(current_offset),
+        [[L: rebase_write_zooms/position_advances_by_size]]
+        *final(current_offset) == *old(current_offset) + section.size,
+        [[L: rebase_write_zooms/rest_unchanged]]
+        r.chrom == section.chrom && r.start == section.start && r.end == section.end && r.size == section.size,
+//@open
+    let mut section = section;
+//@end
+
+//@extract closure bigtools/src/bbi/bbiwrite.rs write_zoom_vals sections_iter
+//@header fn rebase_zoom_vals_first(current_offset: &mut u64, section: Section, first_zoom_data_offset: u64) -> Section
+//@rule R5
+//@sub /\bcurrent_offset\b(?!:)/ => (*current_offset) min=0
+//@ret r
+//@sig
+    requires
+        [[L: rebase_zoom_vals_first/pre_no_overflow]]
+        *old(current_offset) + section.size <= u64::MAX,
+    ensures
+        [[L: rebase_zoom_vals_first/offset_is_running_position]]
+        r.offset == *old(current_offset),
+        [[L: rebase_zoom_vals_first/position_advances_by_size]]
+        *final(current_offset) == *old(current_offset) + section.size,
+        [[L: rebase_zoom_vals_first/rest_unchanged]]
+        r.chrom == section.chrom && r.start == section.start && r.end == section.end && r.size == section.size,
+//@open
+    let mut section = section;
+//@end
+
+//@extract closure bigtools/src/bbi/bbiwrite.rs write_zoom_vals sections_iter#2
+//@header fn rebase_zoom_vals_later(current_offset: &mut u64, section: Section, zoom_data_offset: u64) -> Section
+//@rule R5
+//@sub /\bcurrent_offset\b(?!:)/ => (*current_offset) min=0
+//@ret r
+//@sig
+    requires
+        [[L: rebase_zoom_vals_later/pre_no_overflow]]
+        *old(current_offset) + section.size <= u64::MAX,
+    ensures
+        [[L: rebase_zoom_vals_later/offset_is_running_position]]
+        r.offset == *old(current_offset),
+        [[L: rebase_zoom_vals_later/position_advances_by_size]]
+        *final(current_offset) == *old(current_offset) + section.size,
+        [[L: rebase_zoom_vals_later/rest_unchanged]]
+        r.chrom == section.chrom && r.start == section.start && r.end == section.end && r.size == section.size,
+//@open
+    let mut section = section;
 //@end
 
 } // verus!
